@@ -56,3 +56,21 @@ Definition from_str (s : string) : parse_result :=
           end
       end
   end.
+
+(* the name under which module `code_consts` publishes a code (ZETA3, EXP_GOLOMB0, ...): the
+   correspondence check instantiates ConstCode with these names, the model looks the name up in
+   the generated `code_consts` table *)
+Definition const_name (c : code) : option string :=
+  let p := cparam c in
+  let fam (lo : N) (nm : string) := if (lo <=? p)%N && (p <=? 10)%N then Some (nm ++ print_usize p) else None in
+  match cvar c with
+  | VUnary => Some "UNARY" | VGamma => Some "GAMMA" | VDelta => Some "DELTA" | VOmega => Some "OMEGA"
+  | VVByteLe => Some "VBYTE_LE" | VVByteBe => Some "VBYTE_BE"
+  | VZeta => fam 1%N "ZETA" | VPi => fam 0%N "PI" | VGolomb => fam 1%N "GOLOMB"
+  | VExpGolomb => fam 0%N "EXP_GOLOMB" | VRice => fam 0%N "RICE"
+  end.
+Definition named_const_call (op : opkind) (c : code) : option call :=
+  match const_name c with
+  | Some nm => match assocS code_consts nm with Some id => const_call op id | None => None end
+  | None => None
+  end.
